@@ -569,7 +569,7 @@ func c12Jobs(s *c12Seeds, cases []c12Case, seed int64, quick bool) []c12Job {
 	}
 	scale := 1
 	if !quick {
-		scale = 8
+		scale = 24
 	}
 	for _, tg := range targets {
 		tg := tg
